@@ -12,6 +12,8 @@ CLAIMS = {
  "C01": "Proved for every input: each modelled parser (certificate, key certificate, KeysAndCert incl. both key-type-specific readers, Destination, RouterIdentity, mapping, I2PString, signature, offline signature, leases, router address, RouterInfo, LeaseSet, LeaseSet2, MetaLeaseSet, EncryptedLeaseSet) returns a value whose serialisation followed by the remainder is the input. " + TIE,
  "C03": "Proved for every input and every appended byte string: suffix, append-stability and no-accepted-proper-prefix for every remainder-returning parser of the model (the third derived once from the second). " + TIE,
  "C07": "Proved: hash = H(bytes), address = unpadded I2P base32 of the hash + '.b32.i2p' with length 60 (incl. TrimRight('=') of the padded encoding = the unpadded encoding), Base64 decodes back, Equals iff equal bytes, and the serialisation determines every field (so any key/padding/certificate byte change changes the hashed bytes). SHA-256 is a parameter. " + TIE,
+ "C08": "Proved on the model: a value all of whose byte fields are copies observes the same bytes whatever the caller's buffer is overwritten with, and every field of a parsed certificate / KeysAndCert / Destination / RouterIdentity is a copy (provenance table written from the Go code, with the pre-repair sub-slice as a proved counter-witness). Memory sharing itself is decided on the real library by the scribble oracle: after parsing, the whole input buffer is overwritten and every observation (serialisation, keys, leases, signature, offline block) is compared, for every accepted input of every structure in scope, and slices returned by accessors documented to copy are overwritten too. " + TIE,
+ "C20": "Zero-value half: proved complete by kernel `decide` on every run — the reflective sweep of the freshly built library covers exactly the (type, argument-free exported method) pairs the source declares (259 today), none panics, no verification succeeds. Failed-parse half: explored, not proved — the same reflective method sweep runs on the value returned together with an error for every rejected generated input (truncations at and around every field boundary, mutations), and Verify on such values must not succeed. " + TIE,
  "C09": "Proved on the model: every Destination/RouterIdentity a reader returns satisfies the policy, the RouterIdentity policy implies the Destination policy, nothing permitted is rejected, every supported pair parses. Re-proved on every run against tables regenerated from /repo: the (signing, crypto) pairs the built library accepts (exhaustive sweep) and the prohibited sets written in the source (AST) equal the specification's. Embedded paths (RouterInfo, LeaseSet, LeaseSet2, MetaLeaseSet) are judged by an oracle on the real library. " + TIE,
  "C10": "Re-proved on every run by kernel `decide` against tables regenerated from /repo: every size lookup, observed over all 65,536 codes through the public API, and every source-level copy of the tables (map literals and switch statements, translated from the Go AST) equals the specification table. Layout of the 384-byte block proved for all inputs on the model (parser side and constructor side). " + TIE,
  "C11": "Proved for all maps: order independence (Go map iteration = arbitrary permutation), acceptance within limits with strictly key-sorted pairs, rejection beyond limits, map -> bytes -> map identity (partial: up to 1000 pairs, the parser's MAX_MAPPING_PAIRS), size field, re-serialisation of every accepted input, append stability, no accepted proper prefix. " + TIE,
@@ -29,8 +31,8 @@ REASONS = {
  "C02": "not built yet: needs the spec-layer codecs and a spec-directed encoder with field comparison; partially covered under C01/C03/C09 (spec → parser acceptance for identities)",
  "C04": "being built: checked-slice Lean layer (no-panic + refinement theorems) and panic/deadline oracles exist in the harness; not yet registered",
  "C05": "being built: the implementation-side oracle (independent Ed25519/ECDSA/DSA verification over the raw bytes, adversarial derivations) runs under STRUCT; the Lean data-flow theorem is not written yet",
- "C06": "not built yet", "C08": "being built: scribble oracle exists in the harness; the Lean aliasing model is not written yet",
- "C14": "not built yet", "C16": "not built yet", "C18": "not built yet", "C20": "being built: reflective method sweep exists in the harness for failed-parse values; zero-value sweep and the Lean nil model are not written yet",
+ "C06": "being built (constructor ops and classification of the open constructor findings)", "C14": "being built (constructor/Validate/parser rule sets; several open findings to classify)",
+ "C16": "being built (encrypt/decrypt/blinding ops with independent crypto; symbolic Lean model)", "C18": "being built (generic schedule-independence theorem, SSA effect facts, race-detector soak)",
 }
 props = [json.loads(l) for l in open(os.path.join(ROOT, "properties.jsonl"))]
 checks = []
